@@ -52,5 +52,6 @@ func padBytes(b []byte, size int) []byte {
 		panic("invalid byte size")
 	}
 	// append zeros to match the requested size
-	return append(b, make([]byte, size-l)...)
+	// big.Int.Bytes drops leading zero bytes: restore them in front
+	return append(make([]byte, size-l), b...)
 }
